@@ -192,6 +192,10 @@ pub trait Property: Sync {
     fn threads(&self) -> usize {
         16
     }
+    /// name of a counter that is reported as `evaluations` instead of the number of generated cases
+    fn evaluations_counter(&self) -> Option<&'static str> {
+        None
+    }
 }
 
 fn digest<T: Serialize>(c: &T) -> u64 {
@@ -517,13 +521,18 @@ pub fn drive<P: Property>(p: &P, tier: Tier) -> i32 {
             )
         })
         .collect();
+    let evaluations = match p.evaluations_counter() {
+        Some(c) => total.counters.get(c).copied().unwrap_or(0) + total.counters.get(&format!("replay.{}", c)).copied().unwrap_or(0),
+        None => total.evaluations,
+    };
     let ev = json!({
         "property_id": id,
         "tier": tier.name(),
         "seed": seed as i64,
         "level": p.level(),
         "coverage": {
-            "evaluations": total.evaluations,
+            "evaluations": evaluations,
+            "cases_generated": total.evaluations,
             "distinct_nontrivial": total.nontrivial.len(),
             "rule": p.rule(),
             "samples": total.samples,
